@@ -84,6 +84,13 @@ def verify_unit(uname, prop, seed):
     cmd, out, err, rc, wall = V.run_verus(path, rlimit=rl, seed=None)
     js, diags, other = V.parse(out, err)
     r = V.classify(unit, js, diags, rc)
+    if r["status"] == "undecided" and "resource limit" in r["reason"]:
+        rl2 = (rl or 10) * 3
+        cmd, out, err, rc, wall2 = V.run_verus(path, rlimit=rl2, seed=None)
+        wall += wall2
+        js, diags, other = V.parse(out, err)
+        r = V.classify(unit, js, diags, rc)
+        r["retried_rlimit"] = rl2
     if fut is not None:
         fcmd, fout, ferr, frc, fwall = fut.result()
         fjs, fdiags, fother = V.parse(fout, ferr)
@@ -98,13 +105,6 @@ def verify_unit(uname, prop, seed):
         wall = max(wall, fwall)
         # the driver needs the function table of the full file (with finding variants)
         unit.generate(findings=True)
-    if r["status"] == "undecided" and "resource limit" in r["reason"]:
-        rl2 = (rl or 10) * 3
-        cmd, out, err, rc, wall2 = V.run_verus(path, rlimit=rl2, seed=None)
-        wall += wall2
-        js, diags, other = V.parse(out, err)
-        r = V.classify(unit, js, diags, rc)
-        r["retried_rlimit"] = rl2
     res.update(r)
     res["cmd"] = "cd %s && %s" % (wd, " ".join(cmd))
     res["wall_s"] = round(wall, 2)
